@@ -77,7 +77,12 @@ func main() {
 	out := flag.String("out", "", "output jsonl")
 	replay := flag.String("replay", "", "replay file: re-run the implementation on the ops of this jsonl")
 	tmp := flag.String("tmp", "", "scratch dir")
+	isWorker := flag.Bool("worker", false, "internal: run as isolated worker (see worker.go)")
 	flag.Parse()
+	if *isWorker {
+		runWorker(&Ctx{Prop: *prop, Tier: *tier, Seed: *seed, R: rand.New(rand.NewPCG(*seed, 7)), Stats: map[string]int{}, Tmp: *tmp})
+		return
+	}
 	f, ok := props[*prop]
 	if !ok {
 		ids := []string{}
@@ -139,3 +144,5 @@ func replayFile(c *Ctx, path string) {
 		}
 	}
 }
+
+func sortStrings(xs []string) { sort.Strings(xs) }
